@@ -288,11 +288,19 @@ func c08(run *core.Run, replay string) {
 		"oracle: an injected fault must surface as a non-nil error of some call, no panic may escape, a Close that returns nil implies the sink decodes to exactly the accepted bytes, " +
 		"bytes returned by Read are always a prefix of the original and a clean io.EOF implies completeness; non-trivial = the fault was actually injected; distinct = (recipe, side, k, mode, jobs)")
 	check := func(c *fiCase) fiObs {
-		var o fiObs
-		if c.Side == "source" {
-			o = runSourceCase(c)
-		} else {
-			o = runSinkCase(c)
+		if core.Hangs() >= 3 {
+			return fiObs{}
+		}
+		o, returned := guarded(func() fiObs {
+			if c.Side == "source" {
+				return runSourceCase(c)
+			}
+			return runSinkCase(c)
+		})
+		if !returned {
+			run.Eval(1)
+			run.Violate(fmt.Sprintf("C08 hang side=%s mode=%s", c.Side, c.Mode), fmt.Sprintf("[%s] fault at call %d: the API call never returned (60 s, then 180 s)", c.R.Name, c.K), c)
+			return fiObs{}
 		}
 		run.Eval(1)
 		if o.injected {
